@@ -318,6 +318,10 @@ def make_driver(it, routine, model, modname):
     lines = ["program drv"]
     if mname:
         lines.append(f"  use {modname or mname}")
+        # module variables the driver sets / prints may live in other modules of the same text
+        for other in getattr(it, "modules", {}):
+            if other != mname and not modname:
+                lines.append(f"  use {other}")
     lines.append("  implicit none")
     lines += decls
     if is_func:
